@@ -1,24 +1,90 @@
 from vlib.props import prop
 
+# Stages (flavour x mode).  "mutate" case i is generated from (seed, "C17", i) only, so the rel stage re-runs exactly the inputs of
+# the asan stage: asan judges memory safety / UB / asserts / allocation, rel judges what a user of the release build sees
+# (crash instead of rejection, acceptance of short data without asserts in the way, non-termination within a generous CPU budget).
 prop("C17",
      harness="c17_parsing",
      runs={
-         "quick": [dict(flavour="asan", mode="roundtrip", cases=285),
+         "quick": [dict(flavour="asan", mode="roundtrip", cases=57 * 5),
                    dict(flavour="asan", mode="keywords", cases=3000),
-                   dict(flavour="asan", mode="mutate", cases=16000),
-                   dict(flavour="rel", mode="mutate", cases=8000)],
-         "thorough": [dict(flavour="asan", mode="roundtrip", cases=2850),
-                      dict(flavour="asan", mode="keywords", cases=60000),
-                      dict(flavour="asan", mode="mutate", cases=400000),
-                      dict(flavour="rel", mode="mutate", cases=400000),
-                      dict(flavour="rel", mode="roundtrip", cases=2850)],
+                   dict(flavour="asan", mode="mutate", cases=14000),
+                   dict(flavour="rel", mode="mutate", cases=14000),
+                   dict(flavour="rel", mode="keywords", cases=1000)],
+         "thorough": [dict(flavour="asan", mode="roundtrip", cases=57 * 20),
+                      dict(flavour="rel", mode="roundtrip", cases=57 * 20),
+                      dict(flavour="asan", mode="keywords", cases=15000),
+                      dict(flavour="rel", mode="keywords", cases=15000),
+                      dict(flavour="asan", mode="mutate", cases=50000),
+                      dict(flavour="rel", mode="mutate", cases=50000)],
      },
-     min_nontrivial={"quick": 15000, "thorough": 400000},
-     min_obs={"quick": {"mutated_inputs": 20000},
-              "thorough": {"mutated_inputs": 700000}},
-     rule="TODO",
-     technique="TODO",
-     level_text="TODO",
-     level_note="TODO",
-     assumptions=[],
+     min_nontrivial={"quick": 14000, "thorough": 55000},
+     min_obs={"quick": {"mutated_inputs": 28000, "inputs_accepted_and_consistent": 12000, "inputs_rejected": 9000,
+                        "data_length_checks": 8000, "mutation_short-data": 700, "mutation_value": 6000, "mutation_index": 2500,
+                        "mutation_trunc-line": 1300, "mutation_trunc-byte": 1300, "mutation_delete-line": 2600,
+                        "mutation_dup-line": 1400, "mutation_splice": 4000, "mutation_bytes": 1300,
+                        "inputs_image": 4500, "inputs_dynimage": 1700, "inputs_pdfs": 6000, "inputs_spect": 1700,
+                        "inputs_siemens": 1700, "inputs_multi": 1000, "inputs_kp": 2500, "inputs_par": 1300,
+                        "equivalent_respellings_compared": 1600,
+                        "registered_classes_enumerated": 57, "registered_classes_round_tripped": 25,
+                        "roundtrip_fixed_points_checked": 110, "roundtrip_lines_compared": 900,
+                        "keyword_lines_respelled_and_matched": 12000, "vectorised_lines_stored_at_index": 4500,
+                        "alias_lines_resolved": 800, "bad_index_lines": 550, "normaliser_strings_compared": 20000,
+                        "equivalent_headers_same_result": 1400, "header_aliases_resolved": 500,
+                        "header_indexed_lines_reordered": 6000, "keyparser_own_text_reparsed": 1000},
+              "thorough": {"mutated_inputs": 100000, "inputs_accepted_and_consistent": 45000, "data_length_checks": 30000,
+                           "registered_classes_enumerated": 114, "roundtrip_fixed_points_checked": 800,
+                           "keyword_lines_respelled_and_matched": 100000, "vectorised_lines_stored_at_index": 40000,
+                           "alias_lines_resolved": 7000, "bad_index_lines": 5000, "equivalent_headers_same_result": 11000}},
+     rule=("three kinds of case.  roundtrip: case i = registered class (i mod 57) of the 22 registries, variant i div 57: the object "
+           "parsed from nothing but its start keyword (variant 0) or from its own text with ~1/3 of the numeric values changed "
+           "and keywords respelled (variants >= 1) prints parameter_info(); that text is parsed again and must print the same "
+           "text (numeric tokens may differ by 1e-5 relative); classes whose default values are rejected or that need external "
+           "data are counted as skipped.  keywords: 50% a generated text for a KeyParser with a key of every public kind "
+           "(keywords respelled with case changes and runs of space/tab/_/!, aliases, vectorised keys at random in-range "
+           "indices, optionally one line whose index cannot be honoured) compared with a reference model of the documented "
+           "semantics; 10% standardise_interfile_keyword against a reference normaliser written from the documentation; 40% an "
+           "Interfile header / multi-header that is equivalent to a seed by the documented rules (aliases, respelling, "
+           "vectorised lines of one keyword in another order) must give the same object as the seed.  mutate: one seed "
+           "(Interfile image float/short, dynamic image, 4 PET projection-data headers incl. TOF and arc-corrected, 2 SPECT, 1 "
+           "Siemens sinogram header, multi-header, KeyParser text, default parameter text of a random registered class; all "
+           "but the Siemens/SPECT-non-circular/KeyParser texts written by STIR itself) with 1-3 grammar-aware mutations (value "
+           "replacement from a pool of boundary values, index change/add/drop, line deletion/duplication/swap, truncation at a "
+           "line or byte, byte edits, spliced lines that interact with existing keys, continuation/environment syntax, "
+           "reference to a truncated copy of the data file) through one of 2-3 entry points (read_interfile_image file/stream, "
+           "read_from_file<DiscretisedDensity|DynamicDiscretisedDensity>, read_interfile_dynamic_image, "
+           "ProjData::read_from_file, read_interfile_PDFS, MultipleDataSetHeader::parse, MultipleProjData::read_from_file, "
+           "KeyParser::parse, read_registered_object) in a forked child.  Outcome must be: exception / false / null, or an "
+           "object that passes the consistency checks (regular non-empty index ranges, vectors sized as announced, and - after "
+           "reading all data - data file length >= offset + number of elements x bytes per element); never a sanitizer "
+           "report, failed assert or signal, never a single allocation > 1 GiB (operator new shim), in rel never more than "
+           "120 s CPU.  non-trivial = the parse of the generated input was executed to a verdict; distinct = distinct "
+           "descriptor (input hash)"),
+     technique=("runtime monitoring + mutation-based fuzzing under sanitizers: grammar-aware, seeded, count-bounded mutation of "
+                "headers/parameter texts the library wrote itself, every parse isolated in a forked child under ASan/UBSan/asserts "
+                "with an allocation-size monitor, replayed in the release build; inverse relation print->parse->print over all "
+                "registries; executable reference model for keyword normalisation, aliases and vectorised indices"),
+     level_text=("every class of the 22 parsing registries (57 classes) is enumerated and, where it can be constructed without "
+                 "external data, its print -> parse -> print fixed point is checked for the default object and for objects with "
+                 "perturbed values; ~14000 (quick) / 50000 (thorough) mutated headers and parameter texts per build are pushed "
+                 "through the public readers, each in its own process, with ASan/UBSan/asserts, a > 1 GiB single-allocation "
+                 "monitor and data-length consistency checks on whatever is accepted (all bins of accepted projection data are "
+                 "read); documented-equivalent respellings, aliases and reordered vectorised keys must reproduce the seed's "
+                 "object; a KeyParser with every kind of key is compared line by line with a reference model"),
+     level_note=("trusted: the ~60-line reference normaliser/line splitter and the reference model of the test parser in "
+                 "harness/c17_parsing.cxx, clang-14 sanitizer runtimes.  Not a violation by design of the check: UBSan reports "
+                 "that are purely arithmetic (signed overflow, float->int out of range) on absurd header values are counted "
+                 "(children_stopped_by_arithmetic_overflow_report) but not reported - the statement lists out-of-bounds access, "
+                 "unbounded allocation and size mismatch; exceeding the 20 s CPU budget in the sanitizer build is counted, the "
+                 "release build judges termination.  Coverage-guided libFuzzer stage not included (count-bounded campaign "
+                 "only).  29 of 57 registered classes cannot be built from defaults without external data and are only "
+                 "exercised through the mutation campaign up to their rejection"),
+     assumptions=["an accepted object is judged by the consistency checks listed in `rule`; values other than sizes are not compared "
+                  "with the header (faithfulness of values is C02/C10)",
+                  "data sets of a dynamic image whose 'data offset in bytes' is not given are read at the default offset 0, as the "
+                  "header then says; this is not counted as a size contradiction",
+                  "the fixed-point clause is evaluated on objects reached from default construction and numeric perturbation; "
+                  "objects accepted from malformed text are printed and re-parsed under the sanitizers but the texts are not compared",
+                  "a single allocation is 'unbounded' above 1 GiB; requests between 256 MiB and 1 GiB are refused by the harness "
+                  "(bad_alloc) and the input is then not judged"],
      )
